@@ -11,6 +11,7 @@ import PasfmtModel.Proofs.SpacingLe
 import PasfmtModel.Proofs.WrapStageProps
 import PasfmtModel.Proofs.PipelineFullProps
 import PasfmtModel.Proofs.CanonStage
+import PasfmtModel.Proofs.ReconBytes
 
 namespace Pasfmt.C08
 
@@ -188,5 +189,281 @@ theorem C08_format_full_checked (cfg : Config) (alnum : Bytes → Bool) (s : Byt
     ∃ ftz, formatFull cfg alnum s = some (reconstruct cfg.settings ftz) ∧
       ∀ t ∈ ftz, t.fmt.ignored = false → canonFmt t.fmt = true :=
   formatFull_canon_checked cfg alnum s h
+
+/-! ## The clauses of the property on the bytes of the output
+
+  Everything below is about the bytes of `reconstruct S ft`, for **every** token list `ft` that satisfies the
+  decidable predicate `CanonState S ft` (`Proofs/ReconBytes.lean`).  `CanonState S ft` says:
+  * `S` is of the kind `Config.settings` produces: `S.nlStr` is LF or CR LF, `S.indStr` and `S.contStr` consist of
+    spaces and tabs (`settingsOk_config`: true of every `cfg.settings`);
+  * no token of `ft` is kept verbatim (`ignored`), and every token has canonical counters (`canonFmt`);
+  * the first token has no line break and no space before it;
+  * no token text contains LF (no multi-line token); no text starts or ends with a blank, a blank being exactly the
+    byte 0x20 or the byte 0x09 (the comment rule trims trailing ASCII whitespace; other blanks, finding F5, are
+    not blanks here); only the last text (the end-of-file token) may be empty, and then it has no spaces and no
+    indentation before it.
+  The safety-net line break after a line comment is handled: clauses 1, 2, 3 and 5 hold with it, clause 4 asks that
+  it does not fire (`noSafetyNetGo false ft`), because a line started by it begins with the token's own space.
+
+  "The lines of the output" are defined declaratively: `IsLines nl out Ls` says `out = L₀ ++ nl ++ L₁ ++ … ++ nl ++ Lₙ`
+  for the non-empty list `Ls = [L₀, …, Lₙ]` and no `Lᵢ` contains LF.  For `nl` = LF or CR LF there is at most one
+  such list (`isLines_unique`), and `output_lines` says the output has one. -/
+
+/-- a small state used in the examples: the texts `b`, `x`, `;`, `e` and the empty end-of-file text, rendered
+    `b⏎␣␣x;⏎⏎e⏎` with two spaces per indentation level -/
+def exTok (c : Bytes) (k : Kind) (nl ind cont sp : Nat) : FTok :=
+  { tok := { ws := [], content := c, kind := k },
+    fmt := { ignored := false, nl := nl, ind := ind, cont := cont, sp := sp } }
+
+def exCfg : Config :=
+  { wrapColumn := 120, beginAlwaysWrap := false, fmtMls := true, useTabs := false, tabWidth := 2, contIndents := 2,
+    crlf := false }
+
+def exFt : FT :=
+  [exTok [0x62] .tIdentifier 0 0 0 0, exTok [0x78] .tIdentifier 1 1 0 0, exTok [0x3B] .tIdentifier 0 0 0 0,
+   exTok [0x65] .tIdentifier 2 0 0 0, exTok [] .tEof 1 0 0 0]
+
+example : CanonState exCfg.settings exFt := by decide
+example : reconstruct exCfg.settings exFt = [0x62, 0x0A, 0x20, 0x20, 0x78, 0x3B, 0x0A, 0x0A, 0x65, 0x0A] := by decide
+example : outLines exCfg.settings exFt = [[0x62], [0x20, 0x20, 0x78, 0x3B], [], [0x65], []] := by decide
+/-- a space before the text of the end-of-file token is excluded (it would be a trailing blank) -/
+example : ¬ CanonState exCfg.settings [exTok [0x62] .tIdentifier 0 0 0 0, exTok [] .tEof 0 0 0 1] := by decide
+/-- a text ending in a tab is excluded -/
+example : ¬ CanonState exCfg.settings [exTok [0x62, 0x09] .tIdentifier 0 0 0 0, exTok [] .tEof 1 0 0 0] := by decide
+
+/-- the same texts with tabs and CR LF: `b␍⏎⇥x;␍⏎␍⏎e␍⏎` -/
+def exCfgTabs : Config := { exCfg with useTabs := true, crlf := true }
+example : CanonState exCfgTabs.settings exFt := by decide
+example : outLines exCfgTabs.settings exFt = [[0x62], [0x09, 0x78, 0x3B], [], [0x65], []] := by decide
+example : reconstruct exCfgTabs.settings exFt =
+    [0x62, 0x0D, 0x0A, 0x09, 0x78, 0x3B, 0x0D, 0x0A, 0x0D, 0x0A, 0x65, 0x0D, 0x0A] := by decide
+
+/-- a state in which the safety net fires: the line comment `//` followed by `x` with one space and no line break is
+    rendered `//⏎␣x⏎`; `CanonState` holds (clauses 1, 2, 3, 5 apply), `noSafetyNetGo` does not (clause 4 does not) -/
+def exFtNet : FT :=
+  [exTok [0x2F, 0x2F] (.tComment .cIndividualLine) 0 0 0 0, exTok [0x78] .tIdentifier 0 0 0 1, exTok [] .tEof 1 0 0 0]
+example : CanonState exCfg.settings exFtNet := by decide
+example : noSafetyNetGo false exFtNet = false := by decide
+example : outLines exCfg.settings exFtNet = [[0x2F, 0x2F], [0x20, 0x78], []] := by decide
+
+/-- **The output has lines, and only one list of lines.**  For every state satisfying `CanonState` (no token kept
+    verbatim, no multi-line token, …) the output is `L₀ ++ nl ++ L₁ ++ … ++ nl ++ Lₙ` with `[L₀, …, Lₙ] = outLines S ft`
+    (computed from the tokens), no `Lᵢ` contains LF, and every other list with these two properties is the same
+    list.  The clauses below quantify over "every `Ls` with `IsLines …`": that is this list. -/
+theorem output_lines (S : Settings) (ft : FT) (h : CanonState S ft) :
+    IsLines S.nlStr (reconstruct S ft) (outLines S ft) ∧
+    ∀ Ls, IsLines S.nlStr (reconstruct S ft) Ls → Ls = outLines S ft :=
+  ⟨reconstruct_lines S ft h, fun Ls hL => lines_eq_outLines S ft h Ls hL⟩
+
+/-- **Clause 1: no output line ends in a blank.**  No line of the output ends in a space (0x20) or a tab (0x09).
+    The hypotheses exclude tokens kept verbatim, multi-line tokens, and token texts that themselves end in a space or
+    a tab (the comment rule trims these; a comment ending in an exotic blank, finding F5, is not a counterexample
+    because only 0x20 and 0x09 count as blanks here) and spaces or indentation before an empty text.  Of the
+    counters nothing is used: the clause holds whatever `nl`, `ind`, `cont`, `sp` are, and with the safety-net
+    line break. -/
+theorem no_trailing_blank (S : Settings) (ft : FT) (h : CanonState S ft) (Ls : List Bytes)
+    (hL : IsLines S.nlStr (reconstruct S ft) Ls) : ∀ L ∈ Ls, endsBlank L = false :=
+  recon_no_trailing_blank S ft h Ls hL
+
+example : ∀ L ∈ outLines exCfg.settings exFt, endsBlank L = false :=
+  no_trailing_blank _ _ (by decide) _ (output_lines _ _ (by decide)).1
+
+/-- **Clause 2: tokens on one line are separated by at most one space and never by a tab.**  For any two
+    neighbouring tokens `t`, `u` of the state, the output is `A ++ text t ++ G ++ text u ++ rest`, where `A ++ text t`
+    is the output for the tokens up to `t`, and the bytes `G` between the two texts are: nothing, or exactly one
+    space (0x20), or they start with a line terminator (`u` starts a new line).  The hypotheses exclude a `u` kept
+    verbatim or with non-canonical counters (more than one space without a line break); `gap_between` is the same
+    statement for an arbitrary token list in which only `u` is asked to be such. -/
+theorem at_most_one_space (S : Settings) (ft : FT) (h : CanonState S ft) (pre post : FT) (t u : FTok)
+    (hft : ft = pre ++ t :: u :: post) :
+    ∃ A G, reconstruct S (pre ++ [t]) = A ++ t.tok.content ∧
+      reconstruct S ft =
+        A ++ t.tok.content ++ G ++ u.tok.content ++ reconGo S (isSingleLineComment u.tok.kind) post ∧
+      (G = [] ∨ G = [0x20] ∨ ∃ W, G = S.nlStr ++ W) :=
+  recon_at_most_one_space S ft h pre post t u hft
+
+/-- between `x` and `;` there is nothing, before `x` the gap starts with the terminator -/
+example : ∃ A G, reconstruct exCfg.settings exFt =
+      A ++ [0x78] ++ G ++ [0x3B] ++ reconGo exCfg.settings false [exTok [0x65] .tIdentifier 2 0 0 0, exTok [] .tEof 1 0 0 0] ∧
+      (G = [] ∨ G = [0x20] ∨ ∃ W, G = exCfg.settings.nlStr ++ W) := by
+  obtain ⟨A, G, _, h2, h3⟩ := at_most_one_space exCfg.settings exFt (by decide)
+    [exTok [0x62] .tIdentifier 0 0 0 0] [exTok [0x65] .tIdentifier 2 0 0 0, exTok [] .tEof 1 0 0 0]
+    (exTok [0x78] .tIdentifier 1 1 0 0) (exTok [0x3B] .tIdentifier 0 0 0 0) rfl
+  exact ⟨A, G, h2, h3⟩
+
+/-- **Clause 3: never two consecutive blank lines, no blank line at the start.**  The output does not contain three
+    consecutive line terminators (two consecutive blank lines are exactly that), and it does not start with a line
+    terminator.  The hypotheses exclude tokens kept verbatim, multi-line tokens, more than two line breaks before a
+    token (`canonFmt`), a line break before the first token, and empty texts other than the last (an empty text
+    between two line breaks would join two blank lines). -/
+theorem no_double_blank_line (S : Settings) (ft : FT) (h : CanonState S ft) :
+    ¬ (S.nlStr ++ S.nlStr ++ S.nlStr) <:+: reconstruct S ft ∧ ¬ S.nlStr <+: reconstruct S ft :=
+  recon_no_double_blank_line S ft h
+
+example : ¬ ([0x0A, 0x0A, 0x0A] : Bytes) <:+: [0x62, 0x0A, 0x20, 0x20, 0x78, 0x3B, 0x0A, 0x0A, 0x65, 0x0A] := by
+  have h := (no_double_blank_line exCfg.settings exFt (by decide)).1
+  have e : reconstruct exCfg.settings exFt = [0x62, 0x0A, 0x20, 0x20, 0x78, 0x3B, 0x0A, 0x0A, 0x65, 0x0A] := by decide
+  rw [e] at h; exact h
+
+/-- **Clause 4: every line's indentation is a whole number of indentation units.**  Every line of the output is
+    empty, or it is `k` indentation units - `k` tabs under `use_tabs`, otherwise `k * tab_width` spaces - followed by
+    a byte that is neither a space nor a tab.  Besides `CanonState` the hypotheses exclude the saturation
+    `continuation_indents * tab_width > 255` (finding F6) and states in which the safety-net line break after a line
+    comment fires (the line it starts begins with the token's own single space). -/
+theorem line_indentation_whole_units (c : Config) (hsat : c.contIndents * c.tabWidth ≤ 255) (ft : FT)
+    (h : CanonState c.settings ft) (hsn : noSafetyNetGo false ft = true) (Ls : List Bytes)
+    (hL : IsLines c.settings.nlStr (reconstruct c.settings ft) Ls) : ∀ L ∈ Ls, LineIndentOk c L :=
+  recon_line_indentation c hsat ft h hsn Ls hL
+
+example : ∀ L ∈ outLines exCfg.settings exFt, LineIndentOk exCfg L :=
+  line_indentation_whole_units exCfg (by decide) exFt (by decide) (by decide) _ (output_lines _ _ (by decide)).1
+
+/-- the line `␣␣x;` of the example is one unit of two spaces followed by `x` -/
+example : LineIndentOk exCfg [0x20, 0x20, 0x78, 0x3B] := Or.inr ⟨1, 0x78, [0x3B], by decide, by decide⟩
+
+/-- **Clause 5: the output ends with exactly one line terminator.**  If the last token has an empty text (the
+    end-of-file token) and exactly one line break before it (what the end-of-file rule writes, `eof_one_newline`),
+    the output is `X ++ nl` and `X` does not end with a terminator.  The hypotheses exclude a token before it whose
+    text ends in a line break (no text contains LF) or is empty, and spaces or indentation before the last text. -/
+theorem ends_with_one_terminator (S : Settings) (ft : FT) (h : CanonState S ft) (pre : FT) (e : FTok)
+    (hft : ft = pre ++ [e]) (hc : e.tok.content = []) (hnl : e.fmt.nl = 1) :
+    ∃ X, reconstruct S ft = X ++ S.nlStr ∧ ¬ S.nlStr <:+ X :=
+  recon_ends_with_one_terminator S ft h pre e hft hc hnl
+
+example : ∃ X, reconstruct exCfg.settings exFt = X ++ [0x0A] ∧ ¬ ([0x0A] : Bytes) <:+ X :=
+  ends_with_one_terminator exCfg.settings exFt (by decide) (exFt.take 4) (exTok [] .tEof 1 0 0 0) (by decide) rfl rfl
+
+/-- **Outside verbatim regions.**  The same clauses for a run `seg` of tokens standing anywhere in a token list
+    `pre ++ seg ++ post` (for instance between two regions kept verbatim; `pre` and `post` are arbitrary): the bytes
+    emitted for the run are a contiguous piece of the output; no line of this piece ends in a space or a tab; the piece
+    does not contain three consecutive terminators; and (no saturation, no safety net inside the run) every line of the
+    piece but its first - which continues the line open where the run starts - is empty or whole indentation units
+    followed by a non-blank byte.  `SegState` is `CanonState` without the condition on the first token. -/
+theorem segment_clauses (c : Config) (pre seg post : FT) (h : SegState c.settings seg) :
+    ∃ piece, reconstruct c.settings (pre ++ seg ++ post) =
+        reconGo c.settings false pre ++ piece ++ reconGo c.settings (mbAfter (mbAfter false pre) seg) post ∧
+      piece = reconGo c.settings (mbAfter false pre) seg ∧
+      ¬ (c.settings.nlStr ++ c.settings.nlStr ++ c.settings.nlStr) <:+: piece ∧
+      ∃ Ls, IsLines c.settings.nlStr piece Ls ∧ (∀ L ∈ Ls, endsBlank L = false) ∧
+        (c.contIndents * c.tabWidth ≤ 255 → noSafetyNetGo (mbAfter false pre) seg = true →
+          ∀ L ∈ Ls.tail, LineIndentOk c L) :=
+  ⟨_, reconstruct_segment c.settings pre seg post, rfl, seg_no_double_blank_line _ _ seg h,
+    _, seg_lines _ _ seg h, seg_no_trailing_blank _ _ seg h _ (seg_lines _ _ seg h),
+    fun hsat hsn => seg_line_indentation c hsat _ seg h hsn _ (seg_lines _ _ seg h)⟩
+
+/-- a run `x ;` after a token kept verbatim (whose original whitespace `⏎␣` is emitted as it was): the piece
+    emitted for the run is `⏎␣␣x;`, its lines are the empty rest of the open line and `␣␣x;` -/
+example : ∃ Ls, IsLines exCfg.settings.nlStr
+      (reconGo exCfg.settings false [exTok [0x78] .tIdentifier 1 1 0 0, exTok [0x3B] .tIdentifier 0 0 0 0]) Ls ∧
+      (∀ L ∈ Ls, endsBlank L = false) ∧ ∀ L ∈ Ls.tail, LineIndentOk exCfg L := by
+  obtain ⟨_, _, rfl, _, Ls, h1, h2, h3⟩ := segment_clauses exCfg
+    [{ tok := { ws := [0x0A, 0x20], content := [0x7B, 0x7D], kind := .tComment .cInlineBlock },
+       fmt := { ignored := true, nl := 1, ind := 0, cont := 0, sp := 1 } }]
+    [exTok [0x78] .tIdentifier 1 1 0 0, exTok [0x3B] .tIdentifier 0 0 0 0] [exTok [] .tEof 1 0 0 0] (by decide)
+  exact ⟨Ls, h1, h2, h3 (by decide) (by decide)⟩
+
+/-! ### composition with the closed model -/
+
+/-- all byte-level clauses for one state -/
+structure BytesCanonical (c : Config) (ft : FT) : Prop where
+  /-- the output is made of the lines `outLines` -/
+  lines : IsLines c.settings.nlStr (reconstruct c.settings ft) (outLines c.settings ft)
+  /-- clause 1 -/
+  noTrailingBlank : ∀ L ∈ outLines c.settings ft, endsBlank L = false
+  /-- clause 2 -/
+  atMostOneSpace : ∀ (pre post : FT) (t u : FTok), ft = pre ++ t :: u :: post →
+    ∃ A G, reconstruct c.settings (pre ++ [t]) = A ++ t.tok.content ∧
+      reconstruct c.settings ft =
+        A ++ t.tok.content ++ G ++ u.tok.content ++ reconGo c.settings (isSingleLineComment u.tok.kind) post ∧
+      (G = [] ∨ G = [0x20] ∨ ∃ W, G = c.settings.nlStr ++ W)
+  /-- clause 3 -/
+  noDoubleBlankLine :
+    ¬ (c.settings.nlStr ++ c.settings.nlStr ++ c.settings.nlStr) <:+: reconstruct c.settings ft ∧
+    ¬ c.settings.nlStr <+: reconstruct c.settings ft
+  /-- clause 4 -/
+  indentation : c.contIndents * c.tabWidth ≤ 255 → noSafetyNetGo false ft = true →
+    ∀ L ∈ outLines c.settings ft, LineIndentOk c L
+  /-- clause 5 -/
+  oneTerminator : ∀ (pre : FT) (e : FTok), ft = pre ++ [e] → e.tok.content = [] → e.fmt.nl = 1 →
+    ∃ X, reconstruct c.settings ft = X ++ c.settings.nlStr ∧ ¬ c.settings.nlStr <:+ X
+
+/-- all clauses at once, for every state satisfying `CanonState` -/
+theorem bytes_canonical (c : Config) (ft : FT) (h : CanonState c.settings ft) : BytesCanonical c ft :=
+  { lines := (output_lines _ ft h).1
+    noTrailingBlank := no_trailing_blank _ ft h _ (output_lines _ ft h).1
+    atMostOneSpace := fun pre post t u hft => at_most_one_space _ ft h pre post t u hft
+    noDoubleBlankLine := no_double_blank_line _ ft h
+    indentation := fun hsat hsn => line_indentation_whole_units c hsat ft h hsn _ (output_lines _ ft h).1
+    oneTerminator := fun pre e hft hc hnl => ends_with_one_terminator _ ft h pre e hft hc hnl }
+
+example : BytesCanonical exCfg exFt := bytes_canonical _ _ (by decide)
+example : BytesCanonical exCfgTabs exFt := bytes_canonical _ _ (by decide)
+
+/-- the token state the closed model hands to the reconstructor (`formatFull` without its last step) -/
+def finalStateFull (cfg : Config) (alnum : Bytes → Bool) (s : Bytes) : Option FT :=
+  match lex s with
+  | none => none
+  | some raw =>
+    match parseAndConsolidate raw with
+    | none => none
+    | some po =>
+      match wrapStageFull cfg (preWrap (preO alnum po) raw).2.1 (preWrap (preO alnum po) raw).2.2 with
+      | none => none
+      | some (ft2, _) => some ft2
+
+theorem formatFull_eq_finalState (cfg : Config) (alnum : Bytes → Bool) (s : Bytes) :
+    formatFull cfg alnum s = (finalStateFull cfg alnum s).map (reconstruct cfg.settings) := by
+  unfold formatFull finalStateFull
+  cases lex s with
+  | none => rfl
+  | some raw =>
+    simp only
+    unfold formatTokensFull
+    cases parseAndConsolidate raw with
+    | none => rfl
+    | some po =>
+      simp only
+      have e : preWrap { parser := fun _ => po, wrap := fun _ _ ft => ft, alnum := alnum } raw
+          = preWrap (preO alnum po) raw := rfl
+      rw [e]
+      cases wrapStageFull cfg (preWrap (preO alnum po) raw).2.1 (preWrap (preO alnum po) raw).2.2 with
+      | none => rfl
+      | some r => rfl
+
+/-- **C08 on the bytes, for the closed model of the whole formatter, decided per input.**  When `canonPremisesB`
+    answers `true` on the input (see `C08_format_full_checked`: it fails exactly where the wrapper reports "no
+    solution", finding F34), the model has a final token state `ftz` (`finalStateFull`, executable), the output is
+    its reconstruction, every token of `ftz` not kept verbatim has canonical counters, and if moreover the decidable
+    content check `contentStateB ftz` answers `true` - no token kept verbatim, no multi-line token, no text starting
+    or ending in a space or a tab, only the last text empty, nothing before the first token - then all byte-level
+    clauses hold for the output (`BytesCanonical`): no line ends in a blank, at most one space between two tokens of
+    a line, no two consecutive blank lines and none at the start, whole indentation units (no saturation, no safety
+    net), exactly one terminator at the end.  Inputs with verbatim regions or multi-line tokens are not covered by
+    this statement; for them `segment_clauses` speaks about every run of tokens outside those. -/
+theorem C08_bytes_full_checked (cfg : Config) (alnum : Bytes → Bool) (s : Bytes)
+    (h : canonPremisesB cfg alnum s = true) :
+    ∃ ftz, finalStateFull cfg alnum s = some ftz ∧
+      formatFull cfg alnum s = some (reconstruct cfg.settings ftz) ∧
+      (∀ t ∈ ftz, t.fmt.ignored = false → canonFmt t.fmt = true) ∧
+      (contentStateB ftz = true → CanonState cfg.settings ftz ∧ BytesCanonical cfg ftz) := by
+  unfold canonPremisesB at h
+  split at h
+  · cases h
+  · rename_i raw hl
+    split at h
+    · cases h
+    · rename_i po hpo
+      simp only [Bool.and_eq_true] at h
+      obtain ⟨hpre, hw⟩ := h
+      split at hw
+      · cases hw
+      · rename_i ftz sols hstage
+        have hcanon := wrapStageFull_canon cfg _ _ _ ftz sols (preStageOkB_sound _ _ hpre) hstage hw
+        have hfin : finalStateFull cfg alnum s = some ftz := by
+          unfold finalStateFull
+          rw [hl]; simp only; rw [hpo]; simp only; rw [hstage]
+        refine ⟨ftz, hfin, by rw [formatFull_eq_finalState, hfin]; rfl, hcanon, fun hc => ?_⟩
+        have hcs := canonState_of_content cfg ftz hcanon hc
+        exact ⟨hcs, bytes_canonical cfg ftz hcs⟩
 
 end Pasfmt.C08
